@@ -49,7 +49,7 @@ def bounds(tier):
         "deviation_bound_unpruned": 3 if tier == "quick" else 4,
         "complete_with_pruning": True,
         "configs": len(rc.configs(tier)),
-        "exec_cap_per_exploration": CAP[tier],
+        "exec_cap_per_shard": CAP[tier],
         "horizon_parent_ops": 400,
     }
 
@@ -85,7 +85,7 @@ def judge(x, expected):
     return (f"C11/exception-{x.outcome[1]}", f"no fault injected but {x.outcome[1]} escapes from {x.outcome[2]}")
 
 
-def explore_config(res, c, scratch, tier, fault=None, judge_fn=None, tag="C11", dev_bound=None):
+def explore_config(res, c, scratch, tier, fault=None, judge_fn=None, tag="C11", dev_bound=None, budget=None):
     from mc import vmp
 
     cfg = rc.cfg_for(scratch, c)
@@ -132,8 +132,12 @@ def explore_config(res, c, scratch, tier, fault=None, judge_fn=None, tag="C11", 
             picks["longest"] = x
 
     b = dev_bound if dev_bound is not None else bounds(tier)["deviation_bound_unpruned"]
-    e1 = vmp.Explorer(cfg, fault=fault, bound=b, on_exec=on_exec, max_execs=CAP[tier]).explore()
-    e2 = vmp.Explorer(cfg, fault=fault, bound=None, on_exec=on_exec, max_execs=CAP[tier], prune=True).explore()
+    if budget is None:
+        budget = [CAP[tier]]
+    e1 = vmp.Explorer(cfg, fault=fault, bound=b, on_exec=on_exec, max_execs=max(1, budget[0])).explore()
+    budget[0] -= e1.execs
+    e2 = vmp.Explorer(cfg, fault=fault, bound=None, on_exec=on_exec, max_execs=max(1, budget[0]), prune=True).explore()
+    budget[0] -= e2.execs
     res.count("executions_bounded_unpruned", e1.execs)
     res.count("executions_complete_pruned", e2.execs)
     res.count("states", len(e1.states | e2.states))
